@@ -514,6 +514,9 @@ func (p *Path) builtin(fr *frame, b *ssa.Builtin, call *ssa.CallCommon, args []V
 			n := call.Args[0].Type().Underlying().(*types.Pointer).Elem().Underlying().(*types.Array).Len()
 			return BVConst(uint64(n), 64)
 		case ChanV:
+			if st := p.chans[x.ID]; st != nil {
+				return BVConst(uint64(len(st.buf)), 64)
+			}
 			return BVConst(0, 64)
 		}
 	case "cap":
@@ -794,6 +797,7 @@ type iterV struct {
 	str  []rune
 	strB []int // byte offsets
 	isStr bool
+	symStr []*Term
 }
 
 func (p *Path) rangeIter(fr *frame, x Value, t types.Type, pos token.Pos) Value {
@@ -801,7 +805,15 @@ func (p *Path) rangeIter(fr *frame, x Value, t types.Type, pos token.Pos) Value 
 	case StrV:
 		s, ok := a.Concrete()
 		if !ok {
-			p.unsupported(fr, pos, "range over symbolic string")
+			// symbolic bytes: ASCII only (a byte >= 0x80 would start a multi-byte rune)
+			it := &iterV{isStr: true, symStr: a.B}
+			for i, b := range a.B {
+				if !p.forkBool(p.tb.BVLt(b, byteConst(0x80), false), fr, pos) {
+					p.unsupported(fr, pos, "range over a symbolic string containing non-ASCII bytes")
+				}
+				it.strB = append(it.strB, i)
+			}
+			return it
 		}
 		it := &iterV{isStr: true}
 		for i, r := range s {
@@ -845,6 +857,14 @@ func (p *Path) rangeIter(fr *frame, x Value, t types.Type, pos token.Pos) Value 
 func (p *Path) nextIter(fr *frame, itv Value, in *ssa.Next) Value {
 	it := itv.(*iterV)
 	tt := in.Type().(*types.Tuple)
+	if it.isStr && it.symStr != nil {
+		if it.pos >= len(it.symStr) {
+			return TupleV{tFalse, BVConst(0, 64), BVConst(0, 32)}
+		}
+		r := TupleV{tTrue, BVConst(uint64(it.pos), 64), p.tb.Resize(it.symStr[it.pos], 32, false)}
+		it.pos++
+		return r
+	}
 	if it.isStr {
 		if it.pos >= len(it.str) {
 			return TupleV{tFalse, BVConst(0, 64), BVConst(0, 32)}
